@@ -37,7 +37,10 @@ func (s *skel) tr() {
 type bodyFn func(s *skel, inLoop, inSwitch bool)
 
 var loopKinds = []string{"for3", "forcond", "forinf", "range", "rangekey"}
-var branchKinds = []string{"if", "ifelse", "ifelseif", "swtag:last", "swtag:first", "swtag:mid", "swtag:none", "sw:last", "sw:first", "sw:mid", "sw:none"}
+var branchKinds = []string{"if", "ifelse", "ifelseif", "swtag:last", "swtag:first", "swtag:mid", "swtag:none", "sw:last", "sw:first", "sw:mid", "sw:none",
+	// case expressions that the peephole optimizer rewrites (local+local, local+constant): jump distances over a case
+	// must be those of the rewritten code
+	"swtagx:last", "swtagx:mid", "swtagx:none", "swx:last", "swx:first", "swx:none"}
 
 // emitConstruct writes construct kind with `slots` bodies (the i-th branch/loop body is produced by body(i)).
 func (s *skel) emitConstruct(kind string, sel int, inLoop, inSwitch bool, body func(i int, inLoop, inSwitch bool)) {
@@ -123,7 +126,9 @@ func (s *skel) emitConstruct(kind string, sel int, inLoop, inSwitch bool, body f
 		s.indent--
 		s.line("}")
 	default:
-		tagged := strings.HasPrefix(kind, "swtag:")
+		tagged := strings.HasPrefix(kind, "swtag")
+		arith := strings.HasPrefix(kind, "swtagx:") || strings.HasPrefix(kind, "swx:")
+		other := (sel + 1) % 4
 		defPos := kind[strings.Index(kind, ":")+1:]
 		if tagged {
 			s.line("switch s%d {", sel)
@@ -131,9 +136,18 @@ func (s *skel) emitConstruct(kind string, sel int, inLoop, inSwitch bool, body f
 			s.line("switch {")
 		}
 		emitCase := func(i int) {
-			if tagged {
+			switch {
+			case tagged && arith && i == 0:
+				s.line("case s%d + 1:", other)
+			case tagged && arith:
+				s.line("case s%d + s%d, s%d - 2:", other, other, other)
+			case tagged:
 				s.line("case %d:", i+1)
-			} else {
+			case arith && i == 0:
+				s.line("case s%d+1 == s%d:", sel, other)
+			case arith:
+				s.line("case s%d+s%d == 4 || s%d-1 > s%d*2:", sel, other, sel, other)
+			default:
 				s.line("case s%d == %d:", sel, i+1)
 			}
 			s.indent++
@@ -327,7 +341,16 @@ func genC06(tier string, seed int64) []*Prog {
 		seen := map[string]bool{}
 		var keep []skelSpec
 		rng.Shuffle(len(specs), func(i, j int) { specs[i], specs[j] = specs[j], specs[i] })
+		isX := func(k string) bool { return strings.HasPrefix(k, "swtagx:") || strings.HasPrefix(k, "swx:") }
+		partner := map[string]bool{"for3": true, "forinf": true, "range": true, "ifelse": true, "swtag:mid": true, "sw:last": true}
 		for _, sp := range specs {
+			if len(sp.kinds) == 2 {
+				// quick: switches with rewritten case expressions are paired with a representative of every other family
+				x0, x1 := isX(sp.kinds[0]), isX(sp.kinds[1])
+				if (x0 && x1) || (x0 && !partner[sp.kinds[1]]) || (x1 && !partner[sp.kinds[0]]) {
+					continue
+				}
+			}
 			k := strings.Join(sp.kinds, ">") + ":" + sp.jmp + fmt.Sprint(sp.tight)
 			if !seen[k] || (strings.HasPrefix(sp.kinds[len(sp.kinds)-1], "sw") && sp.at[len(sp.at)-1] == 2) {
 				seen[k] = true
@@ -360,7 +383,7 @@ func checkC06(tier string, seed int64) int {
 	agg, st := NewAgg(), &eqStats{}
 	c.runEquiv(progs, "z3", agg, st)
 	agg.Into(c, "")
-	c.Cov("rule", "control skeletons: nestings (depth 1–2 over all 16 construct kinds × continuation branch × {none, break, continue, return, conditional break/continue}; depth 3 seeded sample) of for(3-clause, cond-only, infinite), range(value, key), switch(tagged/tagless × default first/middle/last/absent), if/else-if/else, with a trace print before and after every construct; selectors s0..s3 and loop bound n (assumed ≤ 2) symbolic; quick keeps one skeleton per (kinds, jump) plus every default-clause placement")
+	c.Cov("rule", "control skeletons: nestings (depth 1–2 over all 22 construct kinds (incl. switches whose case expressions are case lists / arithmetic the optimizer rewrites) × continuation branch × {none, break, continue, return, conditional break/continue}; depth 3 seeded sample) of for(3-clause, cond-only, infinite), range(value, key), switch(tagged/tagless × default first/middle/last/absent), if/else-if/else, with a trace print before and after every construct; selectors s0..s3 and loop bound n (assumed ≤ 2) symbolic; quick keeps one skeleton per (kinds, jump) plus every default-clause placement")
 	c.Cov("paths_compared", st.compared)
 	c.Assumption("loop bound n ≤ 2 (unwinding: engine step bound 6e6 per path, exceeding it is reported as unwind, never as success)")
 	c.Assumption("trace = fmt.Println of distinct constants; the compared observable is the exact output text and the returned value")
